@@ -173,7 +173,7 @@ func isAdvanceReturn(ret *ssa.Return) bool {
 	if len(ret.Results) != 3 {
 		return false
 	}
-	if k, ok := constInt(ret.Results[0]); ok && k == 0 {
+	if k, ok := constInt(unspill(ret.Results[0])); ok && k == 0 {
 		return false
 	}
 	return true
@@ -289,7 +289,7 @@ func (c *Ctx) checkFinishedSite(r *Report, rule, key string, fs finishedSite) {
 			continue
 		}
 		nExit++
-		if k, ok := constInt(ret.Results[0]); ok {
+		if k, ok := constInt(unspill(ret.Results[0])); ok {
 			for name, v := range c.enumConsts(pkgF12, "Flight") {
 				if v == k {
 					slots[name] = true
